@@ -16,6 +16,7 @@ import (
 // C07: hit-for-pass.
 
 type c07Inst struct {
+	store bool   // tiny cache backed by a store: the marker is evicted and reloaded during the period
 	cfg   string // configured hitForPass string
 	p     int64  // effective seconds
 	cache string
@@ -32,7 +33,8 @@ func c07World(r *hx.Run) (*W, []c07Inst) {
 	specs := []struct {
 		s string
 		p int64
-	}{{"1s", 1}, {"2s", 2}, {"5m", 300}, {"0s", 300}, {"-3s", 300}, {"500ms", 300}, {"90s", 90}}
+		store bool
+	}{{"1s", 1, false}, {"2s", 2, false}, {"5m", 300, false}, {"0s", 300, false}, {"-3s", 300, false}, {"500ms", 300, false}, {"90s", 90, false}, {"2s", 2, true}, {"5m", 300, true}}
 	ports := hx.FreePorts(len(specs))
 	var insts []c07Inst
 	w := newWorldCfg(r, 1, true, func(origins []string) *config.PikeConfig {
@@ -42,10 +44,16 @@ func c07World(r *hx.Run) (*W, []c07Inst) {
 		}
 		for i, sp := range specs {
 			name := fmt.Sprintf("hfp%d", i)
-			cfg.Caches = append(cfg.Caches, config.CacheConfig{Name: name, Size: 100000, HitForPass: sp.s})
+			cc := config.CacheConfig{Name: name, Size: 100000, HitForPass: sp.s}
+			if sp.store {
+				cc.Size = 8
+				cc.Store = "mem://c07/" + name
+				hx.NewMemStore(cc.Store)
+			}
+			cfg.Caches = append(cfg.Caches, cc)
 			addr := srvAddr(ports[i])
 			cfg.Servers = append(cfg.Servers, config.ServerConfig{Addr: addr, Locations: []string{"l"}, Cache: name})
-			insts = append(insts, c07Inst{sp.s, sp.p, name, addr})
+			insts = append(insts, c07Inst{sp.store, sp.s, sp.p, name, addr})
 		}
 		return cfg
 	})
@@ -129,6 +137,12 @@ func c07History(r *hx.Run, w *W, ps *plans, rnd *rand.Rand, in c07Inst, hi int) 
 			}
 			now := w.Clock.Advance(st.adv)
 			m.normalise(now)
+			if in.store && rnd.Intn(2) == 0 {
+				for k := 0; k < 24; k++ {
+					w.Cl.Get(in.addr, "c07.example", fmt.Sprintf("/c07fill/%d", k))
+				}
+				r.Add("marker_evictions_forced", 1)
+			}
 			n := []int{1, 2, 3, 6, 12, 24}[rnd.Intn(6)]
 			a := probe
 			if si > 0 {
@@ -145,7 +159,7 @@ func c07History(r *hx.Run, w *W, ps *plans, rnd *rand.Rand, in c07Inst, hi int) 
 					fs = append(fs, f)
 				}
 			}
-			cs := map[string]interface{}{"uri": uri, "hit_for_pass_config": in.cfg, "effective_seconds": in.p, "period": pi, "step": st.desc, "now": now, "burst": n, "answer": a, "model_before": modelBefore}
+			cs := map[string]interface{}{"uri": uri, "hit_for_pass_config": in.cfg, "tiny_cache_with_store": in.store, "effective_seconds": in.p, "period": pi, "step": st.desc, "now": now, "burst": n, "answer": a, "model_before": modelBefore}
 			r.Eval(1)
 			r.Add("requests", int64(n))
 			kind, text := m.burstCheck(now, res, fs, func(*hx.Fetch) ans { return a }, false)
@@ -193,7 +207,7 @@ func c07History(r *hx.Run, w *W, ps *plans, rnd *rand.Rand, in c07Inst, hi int) 
 	}
 	r.Add("periods", int64(periods))
 	if passPeriods > 0 && fullOverlap > 0 {
-		r.Distinct(fmt.Sprintf("P=%s trace=%v", in.cfg, trace))
+		r.Distinct(fmt.Sprintf("P=%s store=%v trace=%v", in.cfg, in.store, trace))
 	}
 	if hi < 4 {
 		r.Sample(map[string]interface{}{"hit_for_pass_config": in.cfg, "effective_seconds": in.p, "trace": trace})
